@@ -37,7 +37,7 @@ def make_case(api, code, pos, layout="one"):
         ops.append(T("fetch_messages", [[fp(T1, 0, 0), fp(T1, 1, 0), fp(T1, 2, 0), fp(b"t2", 0, 0)]]))
     elif api == "produce":
         spec["inject"] = [("produce", T1, pos, code, -1)]
-        ops.append(T("produce_messages", [1, 1, 0, [pm(T1, 0, b"a", b"b"), pm(T1, 1, None, b"c"), pm(T1, 2, None, b"d"),
+        ops.append(T("produce_messages", [1 if (code + pos) % 2 else -1, 1, 0, [pm(T1, 0, b"a", b"b"), pm(T1, 1, None, b"c"), pm(T1, 2, None, b"d"),
                                                   pm(b"t2", 0, None, b"e")]]))
     elif api == "commit":
         spec["inject"] = [("offset_commit", T1, pos, code, -1)]
@@ -57,7 +57,8 @@ def make_case(api, code, pos, layout="one"):
                 T("poll")]
     elif api == "send":
         spec["inject"] = [("produce", T1, pos, code, -1)]
-        ops += [T("producer_build", [T("from_client"), [T("with_required_acks", [1])]]),
+        # both acknowledged modes: 1 (leader) and -1 (all in-sync replicas)
+        ops += [T("producer_build", [T("from_client"), [T("with_required_acks", [1 if (code + pos) % 2 else -1])]]),
                 T("send", [[T("r", [T1, pos, b"k", b"v"])]])]
     return {"cluster": spec, "ops": ops, "meta": {"api": api, "code": code, "pos": pos, "layout": layout},
             "id": "C11-%s-%d-%d-%s" % (api, code, pos, layout)}
